@@ -146,6 +146,10 @@ pub fn dispatch(a: &[String]) -> String {
         format!("CHANGED {} -> {} results {}", before, after, results.join(" ; "))
       }
     }
+    "number_display" => match a[1].parse::<dmntk_feel_number::FeelNumber>() {
+      Ok(n) => n.to_string(),
+      Err(e) => format!("ERR {}", e),
+    },
     _ => format!("UNKNOWN-COMMAND {}", a[0]),
   }
 }
